@@ -1,4 +1,5 @@
 import CgreenModel.Lemmas.Runner
+import CgreenModel.Lemmas.Faults
 /-!
 # C01 — the run verdict is failure iff some test failed or ended abnormally
 
@@ -69,5 +70,41 @@ example : exampleTree.AllOk 4096 .fork := by
 
 example : verdict (run ⟨4096, .fork, .text⟩ exampleTree) = some 1 := by decide
 example : exampleTree.truth 4096 = ⟨4, 2, 2, 1⟩ := by decide
+
+/-! ### Failed checks outside a test's own bracket (the run as the result channel sees it: `Model/Faults.lean`) -/
+section OutsideBracket
+open Faults
+
+/-- Without a fault every reader leaves the channel empty … -/
+theorem channel_empty_after_every_reader (phases : List Leg) (hok : ∀ ph ∈ phases, PhaseOk ph) :
+    (runPhases none phases).pipe = [] :=
+  (inv_run none phases {} ⟨onlyLast_nil, fun _ => rfl⟩ hok).2 (Or.inl rfl)
+
+/-- … so every failure or exception record that reached the channel has been counted, whoever sent it and
+whenever: inside a test's bracket, from a suite fixture that the reporting process runs around a sub-suite, or
+from an exit handler of a test's process after its completion notice (such records are simply part of the
+group the next reader finds). -/
+theorem C01_every_record_counted (phases : List Leg) (hok : ∀ ph ∈ phases, PhaseOk ph) :
+    sentBad phases ≤ bad (runPhases none phases).cnt := by
+  have hc := conserve_run none phases {}
+  have hp := channel_empty_after_every_reader phases hok
+  unfold runPhases at hp ⊢
+  rw [hp] at hc
+  have h0 : bad ({} : RSt).cnt + nbad ({} : RSt).pipe = 0 := rfl
+  simp only [nbad] at hc
+  omega
+
+theorem C01_outside_bracket_verdict (phases : List Leg) (hok : ∀ ph ∈ phases, PhaseOk ph) (h : 0 < sentBad phases) :
+    success (runPhases none phases) = false := by
+  have := C01_every_record_counted phases hok
+  simp only [success, bad] at *
+  cases hf : (runPhases none phases).cnt.f <;> cases he : (runPhases none phases).cnt.e <;> simp_all
+
+/-- A failed check in the teardown fixture of the outermost suite (sent by the reporting process after the
+sub-suite, read when the suite is finished), and one from an exit handler of the last test. -/
+example : (runPhases none [{ recs := [.pass] }, { recs := [], isTest := false }, { recs := [.fail], isTest := false }]).cnt = ⟨1, 1, 0, 0⟩ := by decide
+example : (runPhases none [{ recs := [.pass] }, { recs := [.fail], isTest := false }]).cnt = ⟨1, 1, 0, 0⟩ := by decide
+
+end OutsideBracket
 
 end Cgreen
